@@ -307,7 +307,7 @@ impl Property for C08 {
         "one run = a world-A history (dup/reorder + 30% corrupted deliveries) plus one adss and one sharks dealing; every honest delivery must decode to the sender's value and match the documented layout as read by an independent parser; around each honest encoding the fault set is ENUMERATED (every prefix, every boundary value in each of the 7 length/threshold fields, 4 byte faults at every offset, boundary/out-of-range field elements in every element slot, extensions, splices) and real decoder and parser must agree on accept/reject and on the canonical re-encoding. quick enumerates fully around one report per run and samples around the others; thorough enumerates around all. non-trivial = a non-canonical input was accepted by both and re-encoded canonically; distinct = distinct event digests"
     }
     fn runs(&self, thorough: bool) -> u64 {
-        if thorough { 20_000 } else { 600 }
+        if thorough { 40_000 } else { 3_000 }
     }
     fn run(&self, ctx: &mut Ctx) -> Result<(), Violation> {
         let mut gen = GenCfg::standard(false);
